@@ -145,8 +145,8 @@ def oracle0(op, args, obs):
     if op == "*":
         r = a * b
         c = fl(a) * fl(b)
-        if in64(r):          # documented heuristic: float as soon as the DOUBLE product exceeds 2^63 - 1024
-            return want_int(r, "times-float-although-product-fits-within-1024-of-2^63" if abs(c) > float(T1024) else "other")
+        if in64(r):          # exact whenever it fits (repaired: the former float-magnitude threshold 2^63 - 1024 is gone)
+            return want_int(r, "other")
         return want_float(c)              # never a wrapped integer
     if op in ("/", "//", "%") and b == 0:
         return None if obs[0] in ("float", "error") else ("zero-divisor-not-float-or-error", "float or error")
@@ -244,9 +244,6 @@ def legacy_value(op, v):
     """observation today's kernels give on int operands v, for the operators with a recorded defect; None = not modelled here"""
     a = v[0]
     b = v[1] if len(v) > 1 else None
-    if op == "*":
-        c = fl(a) * fl(b)
-        return ("float", fbits(c)) if abs(c) > float(T1024) or not in64(a * b) else ("int", a * b)
     return None
 
 
@@ -265,9 +262,7 @@ def oracle(op, args, obs):
 # the operands inside that class's footprint are left out of the model/implementation correspondence (the model is stale
 # exactly there; the property oracle still judges the implementation on them) and the evidence names the class under
 # "model_stale_for".  Anything else that differs is reported.
-PROBES = {
-    "times-float-although-product-fits-within-1024-of-2^63": ("*", [I(MAX), I(1)]),
-}
+PROBES = {}     # no open defect class (times-float-although-product-fits-within-1024-of-2^63 repaired: fixed: line of KNOWN_FINDINGS.txt)
 
 
 def footprints(op, args):
@@ -276,11 +271,15 @@ def footprints(op, args):
         return set()
     v = [a[1] for a in args]
     out = set()
-    if op == "*":
-        r, c = v[0] * v[1], fl(v[0]) * fl(v[1])
-        if in64(r) and abs(c) > float(T1024):
-            out.add("times-float-although-product-fits-within-1024-of-2^63")
     return out
+
+
+def former_times_band(op, args):
+    """int * int whose product fits (or has magnitude exactly 2^63) while the double product exceeds the former threshold 2^63 - 1024"""
+    if op != "*" or not all(a[0] == "i" for a in args):
+        return False
+    r, c = args[0][1] * args[1][1], fl(args[0][1]) * fl(args[1][1])
+    return abs(c) > float(T1024) and abs(r) <= 2 ** 63
 
 
 # ------------------------------------------------------------------ generators
@@ -330,6 +329,11 @@ ANCHORS = [("%", [I(-10), I(5)]), ("%", [I(6), I(-3)]), ("%", [I(0), I(-1)]), ("
            ("./", [I(0), I(0)]), ("./", [I(-7), I(0)]), ("./", [I(MIN), I(-1)]), ("madd", [I(5), I(3), I(0)]), ("msub", [I(5), I(3), I(0)]),
            ("mmul", [I(5), I(3), I(0)]), ("mexp", [I(5), I(3), I(0)]), ("mexp", [I(10), I(1), I(3)]), ("mexp", [I(5), I(0), I(1)]),
            ("mexp", [I(-7), I(1), I(5)]), ("mexp", [I(5), I(0), I(-1)]),
+           # times by the 128-bit product: the former threshold band and the products of magnitude exactly 2^63
+           ("*", [I(MAX), I(1)]), ("*", [I(1), I(MAX)]), ("*", [I(-(2 ** 31)), I(2 ** 32)]), ("*", [I(2 ** 31), I(2 ** 32)]), ("*", [I(-(2 ** 31)), I(-(2 ** 32))]),
+           ("*", [I(MIN), I(1)]), ("*", [I(1), I(MIN)]), ("*", [I(2), I(2 ** 62)]), ("*", [I(-2), I(2 ** 62)]), ("*", [I(-2), I(-(2 ** 62))]), ("*", [I(1024), I(2 ** 53)]),
+           ("*", [I(3037000499), I(3037000499)]), ("*", [I(3037000500), I(3037000500)]), ("*", [I(MAX), I(-1)]), ("*", [I(MIN), I(0)]), ("*", [I(0), I(MIN)]),
+           ("*", [I(T1024 + 1), I(1)]), ("*", [I(-(T1024 + 1)), I(1)]), ("*", [I(4611686018427387903), I(2)]), ("*", [I(4611686018427387904), I(-2)]),
            # round 2
            ("**", [I(3), I(39)]), ("**", [I(7), I(22)]), ("**", [I(-1), I(2 ** 53 + 1)]), ("**", [I(MAX), I(1)]), ("**", [I(2), I(-1075)]),
            ("**", [I(39), I(-255)]), ("**", [I(2), I(63)]), ("**", [I(-2), I(63)]), ("**", [I(2), I(62)]), ("**", [I(2), I(64)]), ("**", [I(2), I(-1)]),
@@ -553,7 +557,7 @@ def run(ctx):
         return
     # ---- which known defect classes still reproduce on this tree (selects where the model is compared)
     pk = sorted(PROBES)
-    pobs = impl_bif(ctx, [PROBES[c] for c in pk])
+    pobs = impl_bif(ctx, [PROBES[c] for c in pk]) if pk else []
     repaired = set()
     probe_report = {}
     for c, o in zip(pk, pobs):
@@ -586,6 +590,9 @@ def run(ctx):
     rg_t = [i for i in rgi if cases[i][0] in TERN]
     chosen += [i for i in rgi if cases[i][0] not in TERN]
     chosen += rg_t if ctx.tier == "thorough" else rng.sample(rg_t, min(len(rg_t), 1500))
+    band = [i for i, (op, args) in enumerate(cases) if former_times_band(op, args)]
+    ctx.dist("times_former_threshold_band", len(band))
+    chosen += band if ctx.tier == "thorough" else rng.sample(band, min(len(band), 600))
     chosen = sorted(set(chosen))
     if repaired:
         chosen = [i for i in chosen if not (footprints(cases[i][0], cases[i][1]) & repaired)]
